@@ -65,10 +65,23 @@ theorem C09_blob_roundtrip (bs : List Nat) (hb : ∀ b ∈ bs, b < 256) (rest : 
 
 example : b64Encode [1, 2, 255] = "AQL/".toList := by decide
 
+/-- Every finite float, as its shortest decimal, is read back as the same decimal from both layouts the printers use:
+`ryu` (`StructurePrinter`) and `{:e}` (`AttributePrinter`).  (Which decimal is the shortest for a given `f64`, and which
+`f64` a decimal denotes, is outside the model.) -/
+theorem C09_float_roundtrip (neg : Bool) (m : Nat) (e : Int) (hc : (Flt.fin neg m e).isCanon = true)
+    (rest : List Char) (hd : TokEnd rest) :
+    lexPrim (ryuChars (.fin neg m e) ++ rest) = some (.ok (.float (.fin neg m e), rest)) ∧
+    lexPrim (expChars (.fin neg m e) ++ rest) = some (.ok (.float (.fin neg m e), rest)) :=
+  ⟨lexPrim_ryuChars neg m e (Flt.canon_cases hc) hd, lexPrim_expChars neg m e (Flt.canon_cases hc) hd⟩
+
+example : ryuChars (.fin true 15 (-1)) = "-1.5".toList ∧ expChars (.fin true 15 (-1)) = "-1.5e0".toList ∧
+    ryuChars (.fin false 1 21) = "1e21".toList ∧ ryuChars (.fin false 12 (-5)) = "0.00012".toList ∧
+    ryuChars (.fin false 3 2) = "300.0".toList := by decide
+
 /-! ## T2: parse ∘ print for the three printers -/
 
 /-- **Faithful**: for each of the three printers (`print_recon`, `print_recon_compact`, `print_recon_pretty`) and every
-value of the fragment `Value.wf` (no floats; the one shape the printers still cannot express, C09-N1, is excluded —
+value of the fragment `Value.wf` (floats finite; the one shape the printers still cannot express, C09-N1, is excluded —
 see `Value.wf`; attribute names, attribute values and slot keys are arbitrary), parsing what the printer writes gives the value back, integers re-kinded the way
 the parser kinds them (which Rust's `Value::eq` ignores).  Any fuel from `6 * size v` on is enough. -/
 theorem C09_parse_print (st : Style) (v : Value) (hw : v.wf = true) (fuel : Nat) (hf : 6 * v.size ≤ fuel) :
@@ -131,6 +144,13 @@ example : witnessBareAttrKey.wf = true ∧ print .compact witnessBareAttrKey = "
 example : parse (print .compact witnessBareAttrKey) = .ok witnessBareAttrKey.norm :=
   C09_parse_print_parse _ _ (by decide)
 
+/-- Floats in item and in attribute position (the two layouts). -/
+def witnessFloats : Value :=
+  .record (.cons "f".toList (.float (.fin true 15 (-1))) .nil) (.val (.float (.fin false 1 21)) (.val (.float (.fin false 0 0)) .nil))
+
+example : witnessFloats.wf = true ∧ print .compact witnessFloats = "@f(-1.5e0){1e21,0.0}".toList := by decide
+example : parse (print .pretty witnessFloats) = .ok witnessFloats.norm := C09_parse_print_parse _ _ (by decide)
+
 /-- F7 (repaired): an attribute name that is not an identifier is written quoted and read back. -/
 def witnessQuotedAttrName : Value := .record (.cons "my attr".toList (.int .i32 1) (.cons "true".toList .extant .nil)) .nil
 
@@ -138,15 +158,5 @@ example : witnessQuotedAttrName.wf = true ∧
     print .compact witnessQuotedAttrName = "@\"my attr\"(1)@\"true\"".toList := by decide
 example : parse (print .std witnessQuotedAttrName) = .ok witnessQuotedAttrName.norm :=
   C09_parse_print_parse _ _ (by decide)
-
-/-! ## open (statement only) -/
-
-/-- Floats: the shortest decimal of a finite float, written in either of the two formats (`ryu`, `{:e}`), is read back
-as the same decimal. -/
-def C09_float_roundtrip_open : Prop :=
-  ∀ (neg : Bool) (m : Nat) (e : Int), (m % 10 ≠ 0 ∨ (m = 0 ∧ e = 0)) →
-    ∀ rest, TokEnd rest →
-      lexPrim (ryuChars (.fin neg m e) ++ rest) = some (.ok (.float (.fin neg m e), rest)) ∧
-      lexPrim (expChars (.fin neg m e) ++ rest) = some (.ok (.float (.fin neg m e), rest))
 
 end SwimVerif.Recon
